@@ -9,6 +9,7 @@ import (
 	"verifharness/model"
 	"verifharness/mon"
 	"verifharness/runner"
+	"verifharness/val"
 )
 
 type base struct {
@@ -93,3 +94,5 @@ func freshClient(adapter string, specs ...adapt.TableSpec) (adapt.Client, *model
 }
 
 var rrCanon = refmodelRenderCanon()
+
+func modelQuirkNames(got, want val.Item) []string { return model.QuirkNames(got, want) }
